@@ -9,8 +9,8 @@
 
    Codes.  SPECFAIL (the observation violates the property):
      101 status 5xx or recovered panic                    105 the serving process died
-     102 a request that violates a documented limit / is undecodable / is refused by a plan
-         limit was answered 2xx                            103 digest changed although 4xx
+     102 a request that violates a documented limit / is undecodable / does not fit the addressed
+         collection (vector length, types, point size) / exceeds a plan limit was answered 2xx                            103 digest changed although 4xx
      104 a request that passes validation (finite numbers) was answered 4xx
      106 a read request changed the digest
    sub-codes of 101 / 105 / 102 for the confirmed defects of the pinned tree (known findings):
@@ -169,6 +169,27 @@ Definition outer_reject (c : c18case) : bool :=
      | (EpCreate | EpInsert | EpUpdate | EpDelPts | EpSearch), CtOther => true
      | _, _ => false end.
 
+(* the request passes the schema-independent validation but does not fit the addressed collection:
+   vector length differs from the index dimension, wrong type for an indexed property, query on a
+   property that is not indexed, bad point id, point larger than the plan allows *)
+Definition collection_level_reject (c : c18case) : bool :=
+  let s := cx_schema (k_ctx c) in
+  match k_body c with
+  | BSearch2 r => validate_request r && negb (validate_schema s (sr_query r))
+  | BSearch1 r => validate_search1 r && match v1_dim s with Some d => negb (s1_len r =? d) | None => false end
+  | BPoints2 r =>
+      match k_ep c with
+      | EpInsert => count_ok enf_points_insert_min enf_points_insert_max (ps_points r) && negb (validate_insert2 s r)
+      | _ => count_ok enf_points_update_min enf_points_update_max (ps_points r) && negb (validate_update2 s r)
+      end
+  | BPoints1 r =>
+      match v1_dim s with
+      | Some d => (match k_ep c with EpInsert => validate_insert1 r | _ => validate_update1 r end) && negb (points1_fit d r)
+      | None => false
+      end
+  | _ => false
+  end.
+
 (* ---- shapes of the confirmed defects *)
 Definition pq_unbuildable (p : vparams) : bool :=
   match vp_quant p with
@@ -223,7 +244,7 @@ Definition verdict (c : c18case) : N :=
     | XPanic => 202%N
     | XReject =>
         if is2xx (o_status o) then
-          (if outer_reject c || negb (N.eqb (doc_violation c) 0) then 102%N else 201%N)
+          (if outer_reject c || negb (N.eqb (doc_violation c) 0) || collection_level_reject c then 102%N else 201%N)
         else if is4xx (o_status o) then (if o_changed o then 103%N else 0%N)
         else 203%N
     | XRefused =>
